@@ -183,6 +183,27 @@ fn velocity_codes(thorough: bool, mut f: impl FnMut(Code)) {
                 }
             }
         } else {
+            // out of the full product: every pair whose track or ground speed lies within 5e-5 of a whole number
+            // (where single precision, round-vs-floor or a different formula would change the displayed value)
+            for dew in 0..2u32 {
+                for vew in 1..1024u32 {
+                    for dns in 0..2u32 {
+                        for vns in 1..1024u32 {
+                            let ew = (vew as f64 - 1.0) * if dew == 1 { -1.0 } else { 1.0 };
+                            let ns = (vns as f64 - 1.0) * if dns == 1 { -1.0 } else { 1.0 };
+                            let mut ang = ew.atan2(ns).to_degrees();
+                            if ang < 0.0 {
+                                ang += 360.0;
+                            }
+                            let gs = (ew * ew + ns * ns).sqrt();
+                            let near = |x: f64| (x - x.round()).abs() < 5e-5 && (x - x.round()).abs() > 1e-9;
+                            if near(ang) || near(gs) {
+                                f(Code { st, dew, vew, dns, vns, vrsign: 0, vr: 10, ca: 5, diffsign: 0, diff: 0, pre_alt: 0 });
+                            }
+                        }
+                    }
+                }
+            }
             let small = ns_values();
             for dew in 0..2 {
                 for vew in 0..1024 {
